@@ -305,7 +305,7 @@ def execute(case):
         return skip("crash/hang: judged by C13 ({} {})".format(out.exc, out.frame), labels=labels)
     if out.kind == "DIAG":
         labels.append("rejected")
-        if may_reject and "out of range" in (out.message or ""):
+        if may_reject:      # some short branch cannot (or may not) reach: a diagnostic, however worded, is right
             return ok(labels=labels, nontrivial=nontrivial)
         return viol("program rejected ({}) although every short branch can reach its target: {!r}".format(
             out.message, [l.strip() for l in lines][:12]), fid="C03:unjustified-reject", labels=labels)
